@@ -11,7 +11,7 @@ INTERFACES = "L5 sessions: numbered lines, bare numbers, LIST and DELETE in ever
 PROFILES = ["dev"]
 CASE_TIMEOUT = 0.5
 MODEL_CASE_TIMEOUT = 5.0
-RULE = ("histories over the line universe {0,1,10,20,65528,65529} (plus numbers above 65529): insert/replace, bare-number delete, "
+RULE = ("histories over the line universe {0,1,10,11,19,20,65528,65529} (adjacent numbers at the bottom, middle and top; plus numbers above 65529): insert/replace, bare-number delete, "
         "LIST and DELETE with the forms n, n-, -n, a-b, bare, inverted and out-of-range, endpoints on, between, before and after stored "
         "lines: all histories of length <= 3 over a reduced alphabet exhaustively, random longer ones; a reference map (Python dict) "
         "predicts every LIST output and the listing after every step; non-trivial = the history contains a range operation on a "
